@@ -96,7 +96,7 @@ def umbrella_headers(config):
     specx = [h for h in hs if "/smspecx/" in "/" + h]
     starpu = [h for h in hs if "/smstarpu/" in "/" + h]
     core = [h for h in hs if h not in specx and h not in starpu and not h.endswith("tbfalgorithmselecter.hpp")]
-    if config == "core":
+    if config in ("core", "asserts"):
         return core
     if config == "specx":
         return core + specx
@@ -122,6 +122,10 @@ def umbrella_text(config, extra=""):
 
 def config_flags(config):
     fl = list(BASE_DEFS) + ["-I", SRC]
+    if config == "asserts":
+        # the same sources with the library's assertions compiled in (the pinned build defines NDEBUG; property C15 is about runs with
+        # assertions enabled)
+        fl = [x for x in fl if x != "-DNDEBUG"] + ["-UNDEBUG"]
     if config == "specx":
         fl += ["-DTBF_USE_SPECX", "-I", os.path.join(VERIF, "stubs", "specx")]
     if config == "starpu":
